@@ -117,6 +117,7 @@ inductive TOp where
   | prim
   | run (p : Pid) (raises : Bool)           -- `pool.run(task)`; `raises`: the task raises at the worker
   | callAndWait (p : Pid) (raises : Bool)   -- `pool.call_and_wait(task)`
+  | submitNB (p : Pid) (w : Wid) (raises : Bool)   -- `w.submit(task)` with a non-blocking task (what `as_completed` does, orchestrate.py:497)
   deriving DecidableEq, Repr
 
 /-- Program points of the composite operations *between* two pieces (courier_worker.py:287–321, 323–337, 410–430;
@@ -133,6 +134,7 @@ inductive Ctl where
   | fin (p : Pid) (o : Outc)                         -- in `finally: self.release_all()`
   | cAcq (p : Pid) (r : Bool)                        -- `call_and_wait`: in `_acquire_all()` + the calls; then `start_time = time.time()`
   | cWait (p : Pid) (r : Bool) (todo : List Nat)     -- `courier_worker.wait`: polling `done()` of the remaining calls
+  | sSub (p : Pid) (r : Bool) (w : Wid)              -- in `w.submit(task)` called on its own (a piece `submitW`); then sleep / return
   deriving DecidableEq, Repr
 
 structure Env where
@@ -205,6 +207,7 @@ def taskRaises (e : Env) (t : Tid) : Bool :=
   match e.ctl t with
   | .rSub _ r _ => r
   | .cAcq _ r => r
+  | .sSub _ r _ => r
   | _ => false
 
 /-- `worker.call(..)` inside its `with self._states_lock:` (courier_utils.py:652–656); the call is remembered as one of
@@ -270,17 +273,19 @@ structure X where
 
 /-- A composite operation ends when its last piece does: the `finally: release_all()` (`fin`), or the error message
 of a `run` that did not start (`rErr`). -/
-def settle (e : Env) (t : Tid) (idleNow : Bool) : Env :=
+def settle (e : Env) (t : Tid) (idleNow : Bool) (res : Option Res := none) : Env :=
   if idleNow then
     match e.ctl t with
     | .fin _ o => { e with ctl := upd e.ctl t .idle, outs := upd e.outs t (e.outs t ++ [o]) }
     | .rErr _ => { e with ctl := upd e.ctl t .idle, outs := upd e.outs t (e.outs t ++ [.notStarted]) }
+    | .sSub _ _ _ =>      -- a `submit` on its own returns as soon as the call has been made
+      if res = some .unit then { e with ctl := upd e.ctl t .idle, outs := upd e.outs t (e.outs t ++ [.ok]) } else e
     | _ => e
   else e
 
 /-- An `Owner` step of thread `t` under the oracle value `b`, with an update of the environment. -/
 def ostep (pw : Pid → List Wid) (x : X) (t : Tid) (b : Bool) (f : Env → Env) : Option X :=
-  (step? pw (fun _ => b) x.base t).map fun c' => ⟨c', settle (f x.env) t (c'.T t).cur.isNone⟩
+  (step? pw (fun _ => b) x.base t).map fun c' => ⟨c', settle (f x.env) t (c'.T t).cur.isNone (c'.T t).results.getLast?⟩
 
 /-- Start the piece `op` of a composite operation: it must be the next operation of the thread's script. -/
 def startPiece (pw : Pid → List Wid) (x : X) (t : Tid) (op : Op) (f : Env → Env) : Option X :=
@@ -353,6 +358,13 @@ def cstep (pw : Pid → List Wid) (x : X) (t : Tid) : Ctl → Option X
           setCtl e t (.fin p (if r || anyFailed e (e.tcalls t) then .raised else .ok))
       else none
     | i :: rest => if (x.env.callSt i).done then some ⟨x.base, setCtl x.env t (.cWait p r rest)⟩ else none
+  | .sSub p r w =>
+    match lastRes x t with
+    | some (.code 1) =>                -- `time.sleep(0.1)`, then the deadline of `wait_until_alive`
+      if x.env.now - x.env.sticker t < x.env.thr then startPiece pw x t (.submitW p w 1) id
+      else some ⟨x.base, { setCtl x.env t .idle with outs := upd x.env.outs t (x.env.outs t ++ [.disconnected]) }⟩
+    | some (.code _) => startPiece pw x t (.submitW p w 2) id      -- `while not self.has_capacity: time.sleep(0)`
+    | _ => none
 
 def popProg (e : Env) (t : Tid) : Env := { e with prog := upd e.prog t (e.prog t).tail }
 
@@ -396,6 +408,8 @@ def xstep? (pw : Pid → List Wid) (x : X) (t : Tid) : Option X :=
       | .run p r :: _ => some ⟨x.base, setCtl { popProg x.env t with tcalls := upd x.env.tcalls t [] } t (.rTick p r)⟩
       | .callAndWait p r :: _ =>
         startPiece pw x t (.acquireAllCall p) fun e => setCtl { popProg e t with tcalls := upd e.tcalls t [] } t (.cAcq p r)
+      | .submitNB p w r :: _ =>
+        startPiece pw x t (.submitW p w 0) fun e => setCtl { popProg e t with tcalls := upd e.tcalls t [] } t (.sSub p r w)
       | .prim :: _ =>
         match (x.base.T t).script with
         | _ :: _ => ostep pw x t false fun e => popProg e t
